@@ -263,6 +263,20 @@ func (fc *FCtx) keyConst(o *types.Var) Val {
 		fc.U.Const(name, bz)
 		fc.keyTagFn()
 		fc.U.Axiom("key constant "+o.Name()+" (never mutated; distinct from other keys)", fmt.Sprintf("(and (= (key_tag %s) %d) (not (= %s bz_nil)))", name, fc.keyTag(o.Pkg().Path()+"."+o.Name()), name))
+		// a key constant initialised with a byte literal has that literal's length
+		if pkg, init := fc.E.varInit(o); init != nil {
+			if cl, ok := unparen(init).(*ast.CompositeLit); ok && isByteSliceType(o.Type()) {
+				allConst := true
+				for _, el := range cl.Elts {
+					if _, isKV := el.(*ast.KeyValueExpr); isKV || pkg.TypesInfo.Types[el].Value == nil {
+						allConst = false
+					}
+				}
+				if allConst {
+					fc.U.Axiom("key constant "+o.Name()+" has the length of its literal", fmt.Sprintf("(= (bz_len %s) %d)", name, len(cl.Elts)))
+				}
+			}
+		}
 	}
 	return Val{T: name, S: bz, GoT: o.Type()}
 }
